@@ -5879,7 +5879,8 @@ impl<Front: SocketHandler> ConnectionH2<Front> {
                 },
                 parser::SETTINGS_ENABLE_PUSH       => { self.peer_settings.settings_enable_push = v == 1;             is_error |= v > 1 },
                 parser::SETTINGS_MAX_CONCURRENT_STREAMS => { self.peer_settings.settings_max_concurrent_streams = v },
-                parser::SETTINGS_INITIAL_WINDOW_SIZE    => { is_error |= self.update_initial_window_size(v, context) },
+                // RFC 9113 §6.5.2, §6.9.2: a value above 2^31-1, or one that makes a stream window overflow, is a FLOW_CONTROL_ERROR
+                parser::SETTINGS_INITIAL_WINDOW_SIZE    => { if self.update_initial_window_size(v, context) { error!("{} INVALID SETTING", log_context!(self)); return self.goaway(H2Error::FlowControlError); } },
                 parser::SETTINGS_MAX_FRAME_SIZE         => { self.peer_settings.settings_max_frame_size = v;           is_error |= !(MIN_MAX_FRAME_SIZE..MAX_MAX_FRAME_SIZE).contains(&v) },
                 parser::SETTINGS_MAX_HEADER_LIST_SIZE   => { self.peer_settings.settings_max_header_list_size = v },
                 parser::SETTINGS_ENABLE_CONNECT_PROTOCOL => { self.peer_settings.settings_enable_connect_protocol = v == 1; is_error |= v > 1 },
